@@ -314,8 +314,8 @@ def _xfilter(accumulator, test_range, condition, operating_range):
                 _ = lambda v: re.escape(v.replace('~?', '?').replace('~*', '*'))
                 match = re.compile(''.join(sum(zip(
                     map(_, _re_condition.split(condition)),
-                    tuple(map(lambda v: '.%s' % v, it)) + ('',)
-                ), ())), re.IGNORECASE).match
+                    tuple(map({'?': '.', '*': '.*'}.get, it)) + ('',)
+                ), ())), re.IGNORECASE | re.DOTALL).fullmatch
                 f = lambda v: isinstance(v, str) and bool(match(v))
                 b = np.vectorize(f, otypes=[bool])(test_range['raw'])
                 try:
